@@ -613,6 +613,10 @@ func runSys(r *vh.Rng, n int, w *vh.Writer, workers int) int {
 	nOut := n - nIn
 	victimKey := ecKey(r, elliptic.P256(), "ecdsa-p256")
 	victim := makeKind(r, victimKey, "own", nil)
+	// the victim is a known device: its genuine certificate has been accepted by this process before
+	if _, ok, p := skiFromCert(victim.leaf); !ok || p != nil {
+		panic("the genuine certificate of a device is refused")
+	}
 	ins := planInbound(r, nIn)
 	outs := planOutbound(r, nOut)
 	total := len(ins) + len(outs)
